@@ -14,7 +14,11 @@ import re
 from .rustsrc import File, parse_block, walk, Tok
 
 class AnchorLost(Exception):
-    pass
+    """a structural selector did not resolve. fn_key is set when the loss is confined to the proof hints of one function
+    (the run then falls back to contract-only verification of that function)."""
+    def __init__(self, msg, fn_key=None):
+        Exception.__init__(self, msg)
+        self.fn_key = fn_key
 
 class Edits:
     """insertions/replacements over one source text, applied in one pass, with a generated-line -> original-line map"""
@@ -162,8 +166,9 @@ def DynCall(k, wrapper): return ('dyncall', k, wrapper)              # rule 7: k
 def DynCallId(name, k, wrapper): return ('dyncallid', name, k, wrapper)   # rule 7: k-th `name(args)` -> wrapper(name, args)
 def Wrap(sel, before, after): return ('wrap', sel, before, after)     # wrap the k-th call expression textually: before + expr + after
 
-def apply_fn(f, ed, spec, counters):
-    """register the edits of one FnSpec on Edits `ed` (offsets of file f)."""
+def apply_fn(f, ed, spec, counters, mode='full'):
+    """register the edits of one FnSpec on Edits `ed` (offsets of file f).
+    mode: full = contract + proof hints; contract_only = contract, signature-level ops only; external = contract assumed, body dropped."""
     fn = f.fns.get(spec.key)
     if fn is None:
         raise AnchorLost('function %s not found in %s' % (spec.key, f.name))
@@ -187,12 +192,21 @@ def apply_fn(f, ed, spec, counters):
         counters['rule15_ghost_param'] = counters.get('rule15_ghost_param', 0) + 1
     if spec.attr:
         ed.insert(t[fn.i_attr].a, spec.attr.strip() + '\n' + ind)
-    if spec.trust:
+    if spec.trust or mode == 'external':
         ed.replace(t[fn.i_bo].a, t[fn.i_bc].b, '{ unimplemented!() }')
         ed.insert(t[fn.i_attr].a, '#[verifier::external_body]\n' + ind)
-        counters['trusted_bodies'] = counters.get('trusted_bodies', 0) + 1
+        if spec.trust: counters['trusted_bodies'] = counters.get('trusted_bodies', 0) + 1
         return
-    for op in spec.ops:
+    ops = spec.ops if mode == 'full' else [op for op in spec.ops if op[0] == 'ghostarg']
+    try:
+        _apply_ops(f, fn, v, ed, spec, ops, counters)
+    except AnchorLost as e:
+        if e.fn_key is None: e.fn_key = spec.key
+        raise
+
+def _apply_ops(f, fn, v, ed, spec, ops, counters):
+    t = f.toks; src = f.src
+    for op in ops:
         kind = op[0]
         if kind == 'ins':
             _, sel, pos, text = op
